@@ -18,8 +18,11 @@ def fixclock():
         fw.sh(f"gcc -shared -fPIC -O2 -o {so} {os.path.join(fw.VERIF, 'lib', 'fixclock.c')} -ldl")
     return {'LD_PRELOAD': so} if os.path.exists(so) else {}
 
-def records_json(n):
-    return json.dumps({"fimg_type": "rec", "record_length": 64, "records": {str(i * 3 + (i % 2)): [f"FIELD{i}", f"SECOND{i}"] for i in range(n)}}).encode()
+def records_json(n, rl=64):
+    if rl == 64:
+        return json.dumps({"fimg_type": "rec", "record_length": 64, "records": {str(i * 3 + (i % 2)): [f"FIELD{i}", f"SECOND{i}"] for i in range(n)}}).encode()
+    # record length that does not divide the chunk size, long records next to each other: records straddle chunk boundaries
+    return json.dumps({"fimg_type": "rec", "record_length": rl, "records": {str(i): ["L" * (rl - 20 - (i % 7)), f"T{i}"] for i in range(n)}}).encode()
 
 def scenario(args):
     d, i, spec, reps, env = args
@@ -38,6 +41,7 @@ def scenario(args):
         cli(['put', '-d', p, '-f', n2, '-t', 'bin', '-a', '768'], stdin=bytes(range(200)), env=env)
         rn = 'RECS' + ('.TXT' if '.' in n1 else '')
         cli(['put', '-d', p, '-f', rn, '-t', 'rec'], stdin=records_json(9), env=env)
+        cli(['put', '-d', p, '-f', 'RECX' + ('.TXT' if '.' in n1 else ''), '-t', 'rec'], stdin=records_json(14, 100), env=env)
         if dirs:
             cli(['mkdir', '-d', p, '-f', 'SUB'], env=env)
             cli(['put', '-d', p, '-f', 'SUB/INNER' + ('.TXT' if '.' in n1 else ''), '-t', 'txt'], stdin=b'INNER\n', env=env)
@@ -52,7 +56,7 @@ def scenario(args):
                ('get any', ['get', '-d', p, '-f', n1, '-t', 'any'], None), ('get txt', ['get', '-d', p, '-f', n1, '-t', 'txt'], None),
                ('get rec', ['get', '-d', p, '-f', rn, '-t', 'rec', '-l', '64'], None), ('get rec any', ['get', '-d', p, '-f', rn, '-t', 'any'], None),
                ('get meta', ['get', '-d', p, '-t', 'meta'], None), ('get block', ['get', '-d', p, '-f', '2', '-t', 'block'], None),
-               ('mget', ['mget', '-d', p], (n1 + '\n' + rn + '\n').encode())]
+               ('mget', ['mget', '-d', p], json.dumps([n1, rn]).encode())]
     for name, argv, stdin in queries:
         outs = set()
         for r in range(reps):
@@ -67,7 +71,10 @@ def lang_scenarios(reps, env):
              ('minify', ['minify', '-t', 'atxt', '--level', '3'], APPLESOFT), ('renumber', ['renumber', '-t', 'atxt', '-b', '10', '-e', '60', '-f', '100', '-s', '5'], APPLESOFT),
              ('verify', ['verify', '-t', 'atxt'], APPLESOFT), ('asm', ['asm'], MERLIN),
              ('dasm', ['dasm', '-p', '6502', '--mx', '11', '-o', '768'], bytes([0xa9, 0, 0x8d, 0, 0xc0, 0x4c, 0, 3, 0x20, 0x58, 0xfc, 0x60] * 8)),
-             ('pack rec', ['pack', '-t', 'rec', '-o', 'prodos', '-f', 'R'], records_json(12)), ('pack txt', ['pack', '-t', 'txt', '-o', 'dos33', '-f', 'T'], b'A\nB\n')]
+             ('pack rec', ['pack', '-t', 'rec', '-o', 'prodos', '-f', 'R'], records_json(12)),
+             ('pack rec straddling prodos', ['pack', '-t', 'rec', '-o', 'prodos', '-f', 'R'], records_json(14, 100)),
+             ('pack rec straddling dos', ['pack', '-t', 'rec', '-o', 'dos33', '-f', 'R'], records_json(14, 100)),
+             ('pack rec straddling dos 127', ['pack', '-t', 'rec', '-o', 'dos33', '-f', 'R'], records_json(20, 127)), ('pack txt', ['pack', '-t', 'txt', '-o', 'dos33', '-f', 'T'], b'A\nB\n')]
     for name, argv, stdin in cases:
         outs = set()
         for r in range(reps):
